@@ -28,14 +28,16 @@ def agg_fields(prog, body_key, adt, chk, rule):
 
 def run(prog, chk, tier):
     chk.explanation = (
-        "write-once(StunRequestState.{bytes,from,to,transport,transaction_id}): assigned only in the StunRequestState::new "
-        "aggregate, never written, never mutably borrowed; provenance chain checked positionally on resolved MIR operands: "
-        "send -> new(msg, self.transport, self.local_addr, to); new: bytes <- request.build(), from/to/transport <- its "
-        "parameters, transaction_id <- request.transaction_id(); StunRequestState::poll -> send_data(self.transport, "
-        "&self.bytes, self.from, self.to) -> Transmit::new(bytes, transport, from, to) -> Transmit{data<-into(data), "
-        "transport, from, to}; Transmit::into_owned and Data::into_owned keep every field; StunAgent::poll returns that "
-        "Transmit through into_owned only; peer_address returns the state's `to`.")
-    chk.trusted += ["rustc MIR", "Vec/Box copy semantics (to_vec/into/clone preserve content)"]
+        "write-once(StunRequestState.{bytes,from,to,transport,transaction_id}): never written, mutably borrowed or moved out "
+        "after construction; StunRequestState is constructed only in ::new. Provenance decided from the abstract "
+        "interpreter's return states, with byte containers carrying a content identity that copies (to_vec, into, "
+        "to_owned, clone, Box/Vec conversions) preserve: new stores bytes = request.build(), from/to/transport = its "
+        "arguments, transaction_id = the request's; send returns and records Transmit/state with data = msg.build(), the "
+        "agent's transport and local address and the destination given (per transport variant, so a constant is told "
+        "from a copy), recorded under the state's own transaction id; StunRequestState::poll's SendData carries the "
+        "state's bytes/transport/from/to; StunAgent::poll returns exactly the Transmit the request produced; "
+        "StunAgent::send_data and Transmit::into_owned keep data and addressing; peer_address returns the state's `to`.")
+    chk.trusted += ["rustc MIR", "Vec/Box/slice copy semantics (model table: copies preserve content identity)"]
     rule = "write-once"
     n = 0
     for f in WRITE_ONCE:
@@ -54,69 +56,10 @@ def run(prog, chk, tier):
     # ---- StunRequestState::new
     rule = "provenance"
     AE.req_new(prog, chk, rule, {"provenance"})
-    # ---- send -> new (in the send table), poll -> send_data (in the request-poll table)
-    A.send_table(prog, chk)
+    # ---- what every producer of a Transmit hands out, decided from E2 return states (through send_data, Transmit::new,
+    # Transmit::into_owned, Data::into_owned and DataSlice::to_owned, whatever their shape)
+    AE.send(prog, chk)
     AE.req_poll(prog, chk)
-    # ---- send_data -> Transmit::new (positional)
-    sd = prog.bodies["stun_proto::agent::send_data"]
-    og = Origins(prog, sd)
-    calls = [(bi, t) for bi, t in sd.calls() if re.search(r"Transmit::<'a>::new", og.callee_name(t))]
-    ok = len(calls) == 1
-    if ok:
-        args = [og.operand(a) for a in calls[0][1]["args"]]
-        ok = (pm(args[0], ("param", "bytes"), sd) and pm(args[1], ("param", "transport"), sd)
-              and pm(args[2], ("param", "from"), sd) and pm(args[3], ("param", "to"), sd)
-              and pm(og.local(0), ("call", r"Transmit::<'a>::new", None), sd))
-    chk.ob(rule, "send_data|Transmit::new(bytes, transport, from, to)", ok, sd.loc())
-    sda = prog.bodies[A.AGENT + "::send_data"]
-    og = Origins(prog, sda)
-    o = og.local(0)
-    chk.ob(rule, "StunAgent::send_data|send_data(self.transport, bytes, self.local_addr, to)",
-           pm(o, ("call", r"^stun_proto::agent::send_data$", [("field", ("param", "self"), "transport"), ("param", "bytes"),
-                                                              ("field", ("param", "self"), "local_addr"), ("param", "to")]), sda),
-           sda.loc(), detail=repr(o))
-    # ---- Transmit::new / into_owned aggregates
-    tnew = [k for k in prog.bodies if re.match(r"^stun_proto::agent::Transmit::<'a>::new(\[.*\])?$", k)]
-    chk.floor("Transmit::new-bodies", len(tnew), 2)
-    for key in tnew:
-        tb, fl = agg_fields(prog, key, "stun_proto::agent::Transmit", chk, rule)
-        if fl:
-            ok = (pm(fl["data"], ("call", r"as std::convert::Into<stun_types::data::Data<'_>>>::into$|Into<.*Data.*>>::into$", [("param", "data")]), tb)
-                  and pm(fl["transport"], ("param", "transport"), tb) and pm(fl["from"], ("param", "from"), tb)
-                  and pm(fl["to"], ("param", "to"), tb))
-            chk.ob(rule, "%s|field-wise" % key.split("agent::")[-1], ok, tb.loc(), detail=repr(fl))
-    tb, fl = agg_fields(prog, "stun_proto::agent::Transmit::<'a>::into_owned", "stun_proto::agent::Transmit", chk, rule)
-    if fl:
-        s = ("param", "self")
-        ok = (pm(fl["data"], ("call", r"Data::<'a>::into_owned$", [("field", s, "data")]), tb)
-              and all(pm(fl[f], ("field", s, f), tb) for f in ("transport", "from", "to")))
-        chk.ob(rule, "Transmit::into_owned|field-preserving", ok, tb.loc(), detail=repr(fl))
-    # Data::into_owned: Borrowed(d) -> Owned(d.to_owned()), Owned(d) -> Owned(d)
-    db = prog.bodies.get("stun_types::data::Data::<'a>::into_owned")
-    if db is None:
-        chk.fail(rule, "body-missing|Data::into_owned")
-    else:
-        og = Origins(prog, db)
-        vals = []
-        for bi, si, s in db.iter_stmts():
-            if s["k"] == "assign" and s["pl"]["l"] == 0 and not s["pl"]["p"]:
-                vals.append(og.rvalue(s["rv"]))
-        s_ = ("param", "self")
-        okb = any(pm(v, ("agg", r"Data::Owned$", [("call", r"DataSlice::<'a>::to_owned$", [("field", ("variant", s_, "Borrowed"), "0")])]), db) for v in vals)
-        oko = any(pm(v, ("agg", r"Data::Owned$", [("field", ("variant", s_, "Owned"), "0")]), db) for v in vals)
-        chk.ob(rule, "Data::into_owned|content-preserving arms", okb and oko and len(vals) == 2, db.loc(), detail=repr(vals))
-        ds = prog.bodies.get("stun_types::data::DataSlice::<'a>::to_owned")
-        og = Origins(prog, ds)
-        o = og.local(0)
-        chk.ob(rule, "DataSlice::to_owned|DataOwned(self.0.into())",
-               pm(o, ("agg", r"DataOwned::DataOwned$", [("call", r"::into$", [("field", ("param", "self"), "0")])]), ds), ds.loc(), detail=repr(o))
-    # ---- StunAgent::poll returns the Transmit unchanged: part of the agent-poll table
-    A.agent_poll_table(prog, chk)
-    # ---- peer_address
-    for key in ("stun_proto::agent::StunRequest::<'a>::peer_address", "stun_proto::agent::StunRequestMut::<'a>::peer_address"):
-        pb = prog.bodies[key]
-        og = Origins(prog, pb)
-        o = og.local(0)
-        ok = pm(o, ("field", ("call", r"Option::<&stun_proto::agent::StunRequestState>::unwrap$",
-                              [("call", r"StunAgent::request_state$", [("field", ("param", "self"), "agent"), ("field", ("param", "self"), "transaction_id")])]), "to"), pb)
-        chk.ob(rule, "%s|state.to" % key.split("agent::")[-1], ok, pb.loc(), detail=repr(o))
+    AE.plain_transmit(prog, chk, rule)
+    AE.agent_poll(prog, chk)
+    AE.handles(prog, chk, which=("peer_address",))
